@@ -91,6 +91,15 @@ structure SysState where
   epoch : Time := 0
 deriving Repr, Inhabited
 
+/-- the hardware address as the `source_lla` plugin sees it: the Source Link-Layer Address option
+    can only carry a 48-bit address (`ndp.LinkLayerAddress` encodes nothing else), so an interface
+    whose hardware address has another length (IP-in-IP and GRE tunnels: 4 or 16 bytes, IPoIB: 20,
+    IEEE 1394 / 802.15.4: 8) is, for that plugin, an interface without one. `handled` records
+    whether the source treats it so (regenerated: `Gen.Plugin.llaRequiresEthernet`); the pinned
+    tree appended the option regardless and no RA could be encoded — finding F-19. -/
+def normSys (handled : Bool) (sys : SysState) : SysState :=
+  if handled then { sys with mac := sys.mac.filter (fun p => p.1 == 6) } else sys
+
 /-- `Plugin.Apply`: the options appended to the RA, or `none` when Apply returns an error. -/
 def Plugin.apply (sys : SysState) : Plugin → Option (List Opt)
   | .pfx auto p onLink autonomous valid pref dep =>
